@@ -40,3 +40,39 @@ def tier2(tier, rng):
             yield {"h": h, "w": w, "grid": g}
     for g in L.sample(rng, L.all_grids(2, 2, _values(2, 2)), 30 if th else 5):
         yield {"h": 2, "w": 2, "grid": g}
+
+
+TIER1 = ("Geradeweg", "solve_geradeweg_model")
+
+
+def tier1_problems(tier, rng):
+    """program-capture tie: every clue grid (values 0 .. max(h, w) + 1 and one negative value on the boards with <= 3
+    cells) of the boards with <= 3 cells, a sample of all grids on the boards with 4 .. 6 cells (both orientations),
+    random grids on larger and non-square boards (up to 7x7, 1xN, Nx1) with clue values at and beyond the boundaries
+    (negative, 0, h + w, larger), boards with height <= 0 or width <= 0 (ValueError in the Python unless both
+    dimensions are negative - those are outside the model's scope and never generated) and clue lists with trailing
+    cells / rows missing (IndexError)"""
+    th = tier == "thorough"
+    for (h, w) in [(1, 1), (1, 2), (2, 1), (1, 3), (3, 1)]:
+        for g in L.all_grids(h, w, [-1] + _values(h, w) + [max(h, w) + 1]):
+            yield {"h": h, "w": w, "grid": g}
+    for (h, w) in [(2, 2), (1, 4), (4, 1), (1, 5), (5, 1), (2, 3), (3, 2), (1, 6), (6, 1)]:
+        for g in L.sample(rng, L.all_grids(h, w, _values(h, w)), 120 if th else 12):
+            yield {"h": h, "w": w, "grid": g}
+    for (h, w) in [(3, 3), (2, 4), (4, 2), (2, 5), (5, 2), (3, 4), (4, 3), (4, 4), (3, 6), (6, 3), (5, 5), (4, 6),
+                   (6, 5), (7, 7), (1, 7), (7, 1), (1, 9), (8, 1), (2, 7), (7, 2)]:
+        far = [-3, -1, 0, 0, 0, 1, 2, 3, max(h, w) - 1, max(h, w), max(h, w) + 1, h + w, h + w + 3, 12]
+        for p in [0.3, 0.7] * (3 if th else 1):
+            yield {"h": h, "w": w, "grid": L.random_grid(rng, h, w, _values(h, w), p)}
+        yield {"h": h, "w": w, "grid": [[rng.choice(far) for _ in range(w)] for _ in range(h)]}
+        yield {"h": h, "w": w, "grid": [[rng.choice([1, 2, 3]) for _ in range(w)] for _ in range(h)]}
+    # boards without cells / a non-positive dimension -> ValueError (never both dimensions negative)
+    for (h, w) in [(0, 0), (0, 1), (1, 0), (0, 3), (3, 0), (0, 6), (5, 0), (-1, 0), (0, -1), (-1, 2), (2, -1), (-3, 1),
+                   (1, -2), (0, -4), (-2, 0)]:
+        yield {"h": h, "w": w, "grid": [[1] * max(w, 0) for _ in range(max(h, 0))]}
+    # malformed: trailing cells / rows missing -> IndexError (after the frame and the loop constraints were posted)
+    for (h, w) in [(1, 1), (1, 3), (3, 1), (2, 2), (3, 2), (4, 4)]:
+        g = L.random_grid(rng, h, w, _values(h, w), 0.5)
+        yield {"h": h, "w": w, "grid": g[:-1] + [g[-1][:-1]]}
+        yield {"h": h, "w": w, "grid": g[:-1]}
+        yield {"h": h, "w": w, "grid": []}
